@@ -57,13 +57,19 @@ Inductive calldata :=
 | CdRevert            (* the inner call reverts: the packet contract RETURNS result code 3 *)
 | CdHookFail          (* EVM execution succeeds, a post-transaction hook fails (Staking.delegate to an
                          invalid validator): CallEVMWithData returns an error -> code 1 *)
-| CdOnwardUnknown.    (* agent contract sends on to a chain without client: SendPacket hook fails -> code 1 *)
+| CdAgent (ref : nat) (rcv : option holder) (dst : chain) (fee : N).
+                      (* Agent.send(refundAddress = user [ref], receiver, dstChain, feeAmount): the agent contract
+                         forwards what THIS packet delivered to it, minus the fee, to chain [dst] (multi-hop);
+                         a [dst] without light client makes the SendPacket hook fail -> code 1 *)
 
-Inductive callback := CbNone | CbBroken.   (* CbBroken: callback address is a contract without callback() *)
+(** Callback address of a packet: none, a contract without callback() (the acknowledgement can never be
+    processed), or the agent contract (set by the agent on the packets it sends: on an error acknowledgement
+    it passes the refund on to user [ref]). *)
+Inductive callback := CbNone | CbBroken | CbAgent (ref : nat).
 
 Record packet := {
   p_src : chain; p_dst : chain; p_seq : N;
-  p_sender : nat;                  (* user index on the source chain *)
+  p_sender : holder;               (* a user, or the agent contract (onward packets) *)
   p_recv : option holder;          (* None: the receiver string is not an address *)
   p_token : token;                 (* token on the source chain *)
   p_ori : option token;            (* Some t: RETURN transfer of a bound token, t = origin token on the destination *)
@@ -171,25 +177,34 @@ Definition is_contract (h : holder) : bool :=
 Definition is_none {A} (o : option A) : bool := match o with None => true | Some _ => false end.
 Definition cd_is_none (cd : calldata) : bool := match cd with CdNone => true | _ => false end.
 
-(** A user's crossChainCall on chain [c] (an Ethereum transaction: atomic; the SendPacket
-    post-transaction hook fails for a destination without light client). *)
-Definition transfer_chain (cfg : config) (c : chain) (cs : cstate) (u : nat) (tok : token) (amt : N) (dst : chain)
+(** Endpoint.crossChainCall by [h] on chain [c], EVM part: tokens and fee are taken, the packet is handed to the
+    packet contract (sequence, fee entry). [None] = the EVM execution reverts. *)
+Definition transfer_evm (cfg : config) (c : chain) (cs : cstate) (h : holder) (tok : token) (amt : N) (dst : chain)
   (rcv : option holder) (cd : calldata) (cb : callback) (ftok : token) (fee : N) : option (cstate * packet) :=
-  if Nat.eqb c dst || negb (Nat.ltb dst (nchains cfg)) || negb (Nat.ltb c (nchains cfg)) then None
-  else if (amt =? 0) && cd_is_none cd then None
-  else match take_tokens cfg c cs (User u) tok amt dst with
+  if (amt =? 0) && cd_is_none cd then None
+  else match take_tokens cfg c cs h tok amt dst with
        | None => None
        | Some (cs1, ori) =>
-           match take_fee cs1 (User u) ftok fee with
+           match take_fee cs1 h ftok fee with
            | None => None
            | Some cs2 =>
                let sq := next_seq cs dst in
                let cs3 := set_fees (set_next cs2 (upd1 (next_seq cs2) dst (sq + 1))) (upd_cs (fees cs2) dst sq (ftok, fee)) in
-               Some (cs3, {| p_src := c; p_dst := dst; p_seq := sq; p_sender := u; p_recv := rcv; p_token := tok;
+               Some (cs3, {| p_src := c; p_dst := dst; p_seq := sq; p_sender := h; p_recv := rcv; p_token := tok;
                              p_ori := ori; p_amount := amt; p_cd := cd; p_cb := cb;
                              p_status := Sent; p_code := 0; p_delivered := 0; p_refunded := 0; p_feepaid := 0 |})
            end
        end.
+
+(** The SendPacket post-transaction hook fails (and the whole transaction with it) when the destination is this
+    chain or has no light client. *)
+Definition dst_ok (cfg : config) (c dst : chain) : bool :=
+  negb (Nat.eqb c dst) && Nat.ltb dst (nchains cfg) && Nat.ltb c (nchains cfg).
+
+(** A crossChainCall transaction (atomic). *)
+Definition transfer_chain (cfg : config) (c : chain) (cs : cstate) (h : holder) (tok : token) (amt : N) (dst : chain)
+  (rcv : option holder) (cd : calldata) (cb : callback) (ftok : token) (fee : N) : option (cstate * packet) :=
+  if dst_ok cfg c dst then transfer_evm cfg c cs h tok amt dst rcv cd cb ftok fee else None.
 
 (** * Packet.onRecvPacket -> Endpoint.onRecvPacket: the token part on the destination.
     [None] = the packet contract reports result code 2 (no effect): token not bound, malformed
@@ -217,34 +232,71 @@ Definition give_tokens (cfg : config) (cs : cstate) (p : packet) : option (cstat
            end
        end.
 
-(** Execution of the call data after a successful token part: result code and ledger. *)
-Definition run_calldata (cs : cstate) (cd : calldata) : N * cstate :=
-  match cd with
-  | CdNone => (0, cs)
-  | CdOk e => (0, set_effects cs (upd1 (effects cs) e 7))
-  | CdRevert => (3, cs)
-  | CdHookFail => (1, cs)
-  | CdOnwardUnknown => (1, cs)
+(** The token the packet delivered on this chain and the number of local units per packet unit. *)
+Definition delivered_token (cfg : config) (p : packet) : option (token * N) :=
+  match p_ori p with
+  | Some t => Some (t, 1)
+  | None => trace cfg (p_dst p) (p_src p) (p_token p)
+  end.
+
+(** Agent.send executed (through the execute contract) after packet [p] delivered [d] units to the agent.
+    Observed: the agent acts only on what THIS packet delivered to the agent itself (tokens it holds from
+    elsewhere are not touched; another receiver -> the call reverts); fee = feeAmount * 10^scale of the incoming
+    binding; the rest is sent on (a token bound to the next chain goes the burn path: amount in origin units);
+    callback address = the agent.  Result: (code, ledger after the EVM part, onward packet):
+    code 3 = the inner call reverted (ledger = after the token part), code 1 = the EVM part succeeded and the
+    SendPacket hook failed (ledger = what the EVM had done: kept only by the OLD RecvPacket). *)
+Definition agent_send (cfg : config) (c : chain) (cs1 : cstate) (p : packet) (d : N)
+  (ref : nat) (rcv2 : option holder) (dst2 : chain) (fee : N) : N * cstate * option packet :=
+  match p_recv p, delivered_token cfg p with
+  | Some Agent, Some (T, kin) =>
+      let feer := fee * kin in
+      if (p_amount p =? 0) || (d <=? feer) then (3, cs1, None)
+      else
+        let L := d - feer in
+        let amt2 := match bound cfg c T dst2 with
+                    | Some (_, k2) => if (k2 =? 0) || negb (L mod k2 =? 0) then None else Some (L / k2)
+                    | None => Some L
+                    end in
+        match amt2 with
+        | None => (3, cs1, None)
+        | Some a2 =>
+            match transfer_evm cfg c cs1 Agent T a2 dst2 rcv2 CdNone (CbAgent ref) T feer with
+            | None => (3, cs1, None)
+            | Some (cs2, q) => if dst_ok cfg c dst2 then (0, cs2, Some q) else (1, cs2, None)
+            end
+        end
+  | _, _ => (3, cs1, None)
+  end.
+
+(** Execution of the call data after a successful token part: result code, ledger, onward packet. *)
+Definition run_calldata (cfg : config) (cs : cstate) (p : packet) (d : N) : N * cstate * option packet :=
+  match p_cd p with
+  | CdNone => (0, cs, None)
+  | CdOk e => (0, set_effects cs (upd1 (effects cs) e 7), None)
+  | CdRevert => (3, cs, None)
+  | CdHookFail => (1, cs, None)
+  | CdAgent ref rcv2 dst2 fee => agent_send cfg (p_dst p) cs p d ref rcv2 dst2 fee
   end.
 
 (** msg_server.RecvPacket (repaired): the callback runs on a branch that is written back only for
-    result code 0.  Result: (code, destination ledger, delivered amount). *)
-Definition recv_chain (cfg : config) (cs : cstate) (p : packet) : N * cstate * N :=
+    result code 0.  Result: (code, destination ledger, delivered amount, onward packet). *)
+Definition recv_chain (cfg : config) (cs : cstate) (p : packet) : N * cstate * N * option packet :=
   match give_tokens cfg cs p with
-  | None => (2, cs, 0)
+  | None => (2, cs, 0, None)
   | Some (cs1, d) =>
-      let '(code, cs2) := run_calldata cs1 (p_cd p) in
-      if code =? 0 then (0, cs2, d) else (code, cs, 0)
+      let '(code, cs2, onw) := run_calldata cfg cs1 p d in
+      if code =? 0 then (0, cs2, d, onw) else (code, cs, 0, None)
   end.
 
 (** msg_server.RecvPacket BEFORE commit 0a3e419: the callback ran on the parent context, so whatever
     the contract had done before reporting a non-zero code (the token part), and whatever the EVM had
     committed before a hook failed, was kept. *)
-Definition recv_chain_old (cfg : config) (cs : cstate) (p : packet) : N * cstate * N :=
+Definition recv_chain_old (cfg : config) (cs : cstate) (p : packet) : N * cstate * N * option packet :=
   match give_tokens cfg cs p with
-  | None => (2, cs, 0)
+  | None => (2, cs, 0, None)
   | Some (cs1, d) =>
-      let '(code, cs2) := run_calldata cs1 (p_cd p) in (code, cs2, d)
+      let '(code, cs2, onw) := run_calldata cfg cs1 p d in (code, cs2, d, onw)
   end.
 
 (** * msg_server.Acknowledgement on the source chain: setAckStatus, sendPacketFeeToRelayer,
@@ -256,7 +308,7 @@ Definition give_back (cfg : config) (cs : cstate) (p : packet) : option (cstate 
   else match p_ori p with
        | None =>
            if (p_amount p <=? out_tokens cs (p_token p) (p_dst p)) && (p_amount p <=? bal cs (p_token p) Endpoint) then
-             Some (set_out (move cs (p_token p) Endpoint (User (p_sender p)) (p_amount p))
+             Some (set_out (move cs (p_token p) Endpoint (p_sender p) (p_amount p))
                      (upd_tc (out_tokens cs) (p_token p) (p_dst p) (out_tokens cs (p_token p) (p_dst p) - p_amount p)),
                    p_amount p)
            else None
@@ -265,18 +317,32 @@ Definition give_back (cfg : config) (cs : cstate) (p : packet) : option (cstate 
            | None => None
            | Some (_, k) =>
                let real := p_amount p * k in
-               Some (set_bind (mint cs (p_token p) (User (p_sender p)) real)
+               Some (set_bind (mint cs (p_token p) (p_sender p) real)
                        (upd_tc (bind_amt cs) (p_token p) (p_dst p) (bind_amt cs (p_token p) (p_dst p) + real)), real)
            end
        end.
 
+(** who ends up with a refund: the sender, or the user named by the agent when the agent sent the packet *)
+Definition refund_target (p : packet) : holder :=
+  match p_cb p with CbAgent ref => User ref | _ => p_sender p end.
+
 Definition ack_chain (cfg : config) (cs : cstate) (p : packet) : option (cstate * N) :=
   match p_cb p with
   | CbBroken => None
-  | CbNone =>
+  | _ =>
       let cs1 := set_ackst cs (upd_cs (ack_status cs) (p_dst p) (p_seq p) (if p_code p =? 0 then 1 else 2)) in
       let '(ft, f) := fees cs (p_dst p) (p_seq p) in
-      if f <=? bal cs1 ft PacketC then give_back cfg (move cs1 ft PacketC Relayer f) p else None
+      if f <=? bal cs1 ft PacketC then
+        match give_back cfg (move cs1 ft PacketC Relayer f) p with
+        | None => None
+        | Some (cs2, r) =>
+            (* Agent.callback: an error acknowledgement's refund is passed on to the refund address *)
+            Some (match p_cb p with
+                  | CbAgent ref => if r =? 0 then cs2 else move cs2 (p_token p) (p_sender p) (User ref) r
+                  | _ => cs2
+                  end, r)
+        end
+      else None
   end.
 
 (** Packet.addPacketFee: anybody may raise the fee of a packet that is not yet acknowledged.  Observed: the
@@ -291,7 +357,7 @@ Definition addfee_chain (cs : cstate) (u : nat) (dst : chain) (sq : N) (amt : N)
 (** * Global steps *)
 Inductive op :=
 | Transfer (c : chain) (u : nat) (tok : token) (amt : N) (dst : chain) (rcv : option holder)
-           (cd : calldata) (cb : callback) (ftok : token) (fee : N)
+           (cd : calldata) (broken_cb : bool) (ftok : token) (fee : N)
 | Recv (src dst : chain) (sq : N)
 | Ack (src dst : chain) (sq : N)
 | AddFee (c : chain) (u : nat) (dst : chain) (sq : N) (amt : N).
@@ -327,11 +393,13 @@ Definition is_sent (p : packet) : bool := match p_status p with Sent => true | _
 Definition is_received (p : packet) : bool := match p_status p with RecvOk | RecvErr => true | _ => false end.
 
 (** [Err] = the transaction / message is rejected and the state is unchanged. *)
-Definition step_gen (recv : config -> cstate -> packet -> N * cstate * N) (cfg : config) (s : state) (o : op)
+Definition opt_list {A} (o : option A) : list A := match o with Some x => [x] | None => [] end.
+
+Definition step_gen (recv : config -> cstate -> packet -> N * cstate * N * option packet) (cfg : config) (s : state) (o : op)
   : outcome state :=
   match o with
-  | Transfer c u tok amt dst rcv cd cb ftok fee =>
-      match transfer_chain cfg c (chains s c) u tok amt dst rcv cd cb ftok fee with
+  | Transfer c u tok amt dst rcv cd broken ftok fee =>
+      match transfer_chain cfg c (chains s c) (User u) tok amt dst rcv cd (if broken then CbBroken else CbNone) ftok fee with
       | None => Err
       | Some (cs, p) => Ok (set_chain s c cs (packets s ++ [p]))
       end
@@ -340,8 +408,8 @@ Definition step_gen (recv : config -> cstate -> packet -> N * cstate * N) (cfg :
       | None => Err
       | Some p =>
           if is_sent p then
-            let '(code, cs, d) := recv cfg (chains s dst) p in
-            Ok (set_chain s dst cs (update src dst sq (on_recv code d) (packets s)))
+            let '(code, cs, d, onw) := recv cfg (chains s dst) p in
+            Ok (set_chain s dst cs (update src dst sq (on_recv code d) (packets s) ++ opt_list onw))
           else Err
       end
   | Ack src dst sq =>
